@@ -2,7 +2,7 @@ SPECIFICATION Spec
 CONSTANTS
   NSock = 3
   Tokens = {1, 2, 3, 4, 5}
-  MaxTotal = 5
+  MaxTotal = 4
   Variants = {"code"}
 INVARIANT TypeOK
 INVARIANT Conforms
